@@ -89,7 +89,18 @@ func argVariants(mt reflect.Type, first int) (out [][]reflect.Value, ok bool) {
 				case typOptionCode4:
 					v.Set(reflect.ValueOf(dhcpv4.GenericOptionCode([]uint8{0, 1, 82, 255}[variant])))
 				case typOptionDecoder:
-					// nil vendor decoder (what Summary() itself passes)
+					// variant 0: the nil vendor decoder (what Summary() itself passes); the others:
+					// decoders a caller hands in - the library's own option-set type by pointer
+					// (its zero value holds a nil map), a caller-side type, and a ready map by value
+					// (seeded change C03-16: a "fresh decoder per call" built with reflect.New)
+					switch variant {
+					case 1:
+						v.Set(reflect.ValueOf(&dhcpv4.Options{}))
+					case 2:
+						v.Set(reflect.ValueOf(&roVendorDecoder{}))
+					case 3:
+						v.Set(reflect.ValueOf(dhcpv4.Options{}))
+					}
 				default:
 					return nil, false
 				}
